@@ -13,11 +13,11 @@ import (
 // map (with child maps) per snapshot, updated by the protocol the moss
 // documentation describes for LowerLevelUpdate.
 type AppStore struct {
-	mu     sync.Mutex
-	cur    *AppSnap
-	Offers []string // what each LowerLevelUpdate was offered (with deletions)
-	FailNext int    // fail this many upcoming updates
-	Gate   func()  // optional: called at the start of every update
+	mu       sync.Mutex
+	cur      *AppSnap
+	Offers   []string // what each LowerLevelUpdate was offered (with deletions)
+	FailNext int      // fail this many upcoming updates
+	Gate     func()   // optional: called at the start of every update
 }
 
 // AppSnap is one immutable state of the application store.
